@@ -11,7 +11,7 @@ BUDGET = {'quick': 150, 'thorough': 1500}
 CHUNK = 4
 RULE = ('Cases: an ancestor of 1..3 contigs (a few per run of 45..200 kb with thousands of sites); substitution sites more than (k-1)/2 apart and at least (k-1)/2 from contig '
         'ends (a share of sites at exactly the minimum distances, and contigs of exactly k or k+1 bases whose only site sits at the centre); 2..10 samples, 2..4 alleles per site; contigs written '
-        'in random order and orientation per sample.  The generator checks admissibility (every canonical split k-mer over '
+        'in random order and orientation per sample, some samples with lower-case stretches.  The generator checks admissibility (every canonical split k-mer over '
         'the union of all sample sequences occurs at one locus, none self-complementary).  `ska align --min-freq 1` must '
         'give exactly the planted columns (each up to whole-column complement), equal lengths, names in input order (sample names are drawn so that input order is usually not sorted order; 30% of the runs write with -o over an existing, longer file).  '
         'Routes: `ska build -k K` + `ska align x.skf` for all odd k, and `ska align <fastas>` (k=17), with --threads 1/2/4/8 (10 samples with > 1 thread take the parallel build path).  Non-trivial: at least '
@@ -19,7 +19,7 @@ RULE = ('Cases: an ancestor of 1..3 contigs (a few per run of 45..200 kb with th
 ASSUMPTIONS = ['the planted truth is the oracle; no model of ska is involved',
                'uniqueness is required over the union of samples, see DESIGN.md section 8']
 REQUIRED = {t: ['route:skf', 'route:fasta', 'sites_at_min_gap', 'sites_at_min_end', 'multi_contig', 'contigs_of_length_k_or_k+1', 'parallel_build_path',
-                'names_not_in_sorted_order', 'output_to_existing_longer_file', 'cases_with_1024+_sites'] for t in ('quick', 'thorough')}
+                'names_not_in_sorted_order', 'output_to_existing_longer_file', 'cases_with_1024+_sites', 'cases_with_lower_case_stretches'] for t in ('quick', 'thorough')}
 
 
 def builds(tier):
@@ -129,12 +129,22 @@ def run_case(desc, ctx):
     names_exp = rng.sample(pool, ns)
     if names_exp != sorted(names_exp):
         res.count('names_not_in_sorted_order')
+    lower_used = False
     for i, s in enumerate(ss):
         order = list(range(len(s)))
         rng.shuffle(order)
         recs = [s[j] if rng.random() < 0.5 else M.rc(s[j]) for j in order]
+        if rng.random() < 0.3:
+            # soft-masked (lower-case) stretches, in some samples only
+            j_ = rng.randrange(len(recs))
+            a_ = rng.randrange(len(recs[j_]))
+            b_ = min(len(recs[j_]), a_ + rng.randint(1, 3 * k))
+            recs[j_] = recs[j_][:a_] + recs[j_][a_:b_].lower() + recs[j_][b_:]
+            lower_used = True
         files.append(G.write_fa(ctx.path(names_exp[i] + '.fa'), recs, wrap=rng.choice([0, 0, 60])))
     to_file = rng.random() < 0.3
+    if lower_used:
+        res.count('cases_with_lower_case_stretches')
     threads = rng.choice([1, 1, 2, 4, 8])
     res.see('threads', threads)
     if ns >= 10 and threads > 1:
